@@ -1,7 +1,7 @@
 META = {
     "level": "model_checking",
-    "technique": "TLA+ model of the client connection lifecycle (key-exchange packets as Transport.run() accepts them, _verify_key, initial_kex_done, the auth_* guard, the point where an armed request is transmitted) under an arbitrary peer, composed with the host-key decision of Transport.connect(hostkey=) and SSHClient.connect (known_hosts lookup by host / [host]:port, hashed entries, system-before-user tables, key-type preference, missing-host-key policies, the gss_kex / gss_auth arguments against a peer that does no GSS) (HostKeyGate.tla), model-checked by TLC with mutated models; TLC enumerates the decision table, every case is rendered to known_hosts files / arguments and run as a real connection over netsched against a real server Transport whose tap keeps every decrypted payload; auth_* calls are made at every lifecycle point with the handshake frozen by the link; all observations are judged by TLC (HostKeyGate_Trace.tla)",
-    "text": "TLC checks that a credential leaves the client only encrypted, after a verified host-key signature and completed initial key exchange, never as the delayed effect of an authentication attempt made earlier, never to a server whose key differs from the one given / known, and to an unknown server only after the policy accepted it; five mutated models (no kex guard, no kex guard and no expected-packet enforcement, type-only key comparison, fallback to password after a merely requested GSS key exchange, policy skipped) break it. The TLC-enumerated table (known_hosts entries x port form x policy x server key set x expected key) and seeded larger configurations are executed with real SSHClient / Transport.connect calls; every auth_* method of Transport and ServiceRequestingTransport is called before start, at four frozen mid-handshake points, in the open session, after local / peer close and after a handshake whose host-key signature was corrupted in transit; the server-side tap (USERAUTH_REQUEST / INFO_RESPONSE payloads), the wire log (plaintext packets, secret strings) and the policy's view are validated by TLC",
+    "technique": "TLA+ model of the client connection lifecycle (key-exchange packets as Transport.run() accepts them, _verify_key, initial_kex_done, the auth_* guard, the point where an armed request is transmitted) under an arbitrary peer, composed with the host-key decision of Transport.connect(hostkey=) and SSHClient.connect (known_hosts lookup by host / [host]:port, hashed entries, system-before-user tables, key-type preference, missing-host-key policies, a second connection through the same SSHClient object, the gss_kex / gss_auth arguments against a peer that does no GSS) (HostKeyGate.tla), model-checked by TLC with mutated models; TLC enumerates the decision table, every case is rendered to known_hosts files / arguments and run as a real connection over netsched against a real server Transport whose tap keeps every decrypted payload; auth_* calls are made at every lifecycle point with the handshake frozen by the link; all observations are judged by TLC (HostKeyGate_Trace.tla)",
+    "text": "TLC checks that a credential leaves the client only encrypted, after a verified host-key signature and completed initial key exchange, never as the delayed effect of an authentication attempt made earlier, never to a server whose key differs from the one given / known, and to an unknown server only after the policy accepted it; six mutated models (hashed names cached per salt across lookups, no kex guard, no kex guard and no expected-packet enforcement, type-only key comparison, fallback to password after a merely requested GSS key exchange, policy skipped) break it. The TLC-enumerated table (known_hosts entries x port form x policy x server key set x expected key) and seeded larger configurations are executed with real SSHClient / Transport.connect calls; every auth_* method of Transport and ServiceRequestingTransport is called before start, at four frozen mid-handshake points, in the open session, after local / peer close and after a handshake whose host-key signature was corrupted in transit; the server-side tap (USERAUTH_REQUEST / INFO_RESPONSE payloads), the wire log (plaintext packets, secret strings) and the policy's view are validated by TLC",
     "note": "trusted: TLC, netsched link + payload tap, the renderer that writes known_hosts lines (hashed names computed with hmac-sha1 independently of paramiko), the bundled test keys standing for the model's key identities. Reading of the lifecycle quantifier: an auth_* call made before the initial key exchange completed must not lead to a credential being transmitted, even later (the literal 'only after' is also checked); auth-protocol messages without a credential (SERVICE_REQUEST, method none) sent to a server that must be refused are reported as conformance only. GSS-API methods are only exercised at points where they must be refused; re-keying is not a lifecycle point here.",
 }
 import random
@@ -17,7 +17,8 @@ def consts(**kw):
          "Policies": set(POLICIES), "MaxEntries": 1, "Apis": {"raw", "connect", "sshclient"}, "ServerSets": "<-Srv2",
          "Methods": {"password", "publickey", "interactive"},
          "GuardKex": True, "EnforceExpected": True, "CompareFullKey": True, "AskPolicy": True,
-         "ConGss": set(GSS), "SshGss": {"none"}, "GssFallback": False}
+         "ConGss": set(GSS), "SshGss": {"none"}, "GssFallback": False,
+         "HashCachedPerSalt": False, "SeqTargets": "@{}", "SeqKeyTypes": {"ed"}}
     d.update(kw)
     return d
 
@@ -28,11 +29,12 @@ def label(cfg):
         return "connect:expect=%s%d:gss=%s" % (cfg["expect"]["t"], cfg["expect"]["id"], cfg["gss"])
     if cfg["api"] == "raw":
         return "raw"
-    want = "h" if cfg["port"] == "default" else "[h]:p"
+    want = {"default": "h", "other": "[h]:p"}.get(cfg["port"], "other")
     hit = [e for e in cfg["sys"] + cfg["usr"] if e["name"] == want]
-    return "sshclient:%s:%s%s%s" % (cfg["port"], "known" if hit else "unknown:" + cfg["policy"],
-                                    ":hashed" if any(e["hashed"] for e in hit) else "",
-                                    "" if cfg["gss"] == "none" else ":gss=" + cfg["gss"])
+    return "sshclient:%s:%s%s%s%s" % (cfg["port"], "known" if hit else "unknown:" + cfg["policy"],
+                                      ":hashed" if any(e["hashed"] for e in hit) else "",
+                                      "" if cfg["gss"] == "none" else ":gss=" + cfg["gss"],
+                                      "".join(":after_" + p["port"] for p in cfg.get("prev", [])))
 
 
 def random_cfg(rnd):
@@ -43,7 +45,7 @@ def random_cfg(rnd):
     if rnd.random() < 0.2:
         return {"api": "connect", "expect": rnd.choice([dict(cl.NOKEY)] + [K(t, i) for t in types for i in (1, 2)]),
                 "sys": [], "usr": [], "policy": "Reject", "port": "default", "server": server,
-                "gss": rnd.choice(GSS)}
+                "gss": rnd.choice(GSS), "prev": []}
     ents = []
     for _ in range(rnd.choice([0, 1, 1, 2, 2, 3, 4])):
         ents.append({"name": rnd.choice(["h", "h", "[h]:p", "[h]:p", "other"]), "hashed": rnd.random() < 0.4,
@@ -59,13 +61,14 @@ def random_cfg(rnd):
         (sys_ if tab == "sys" else usr).append(e)
     return {"api": "sshclient", "expect": dict(cl.NOKEY), "sys": sys_, "usr": usr, "policy": rnd.choice(POLICIES),
             "port": rnd.choice(["default", "other"]), "server": server,
-            "gss": rnd.choice(["none", "none", "kex", "auth", "both"])}
+            "gss": rnd.choice(["none", "none", "kex", "auth", "both"]), "prev": []}
 
 
 def run(c):
     rnd = random.Random(c.seed)
-    small = dict(Names={"h", "[h]:p"}, Policies={"Reject", "AutoAdd", "CustomReject"}, SshGss={"none", "both"}) if c.quick \
-        else dict(SshGss=set(GSS))
+    seq = dict(SeqTargets={"otherhost"}) if c.quick else dict(SeqTargets={"otherhost", "other"}, SeqKeyTypes={"ed", "rsa"})
+    small = dict(Names={"h", "[h]:p"}, Policies={"Reject", "AutoAdd", "CustomReject"}, SshGss={"none", "both"}, **seq) if c.quick \
+        else dict(SshGss=set(GSS), **seq)
     jobs = [dict(name="lifecycle x callers, arbitrary peer (C17)", module="HostKeyGate", kw={"workers": 4},
                  cfg=cfg_text(constants=consts(**small), invariants=["C17"])),
             dict(name="sensitivity: auth_* without the initial_kex_done guard", module="HostKeyGate", expect="NoEarlyAttempt",
@@ -77,10 +80,13 @@ def run(c):
                  cfg=cfg_text(constants=consts(Apis={"connect"}, CompareFullKey=False), invariants=["Gate"])),
             dict(name="sensitivity: Transport.connect falls back to password after a GSS kex that was only requested", module="HostKeyGate",
                  expect="Gate", cfg=cfg_text(constants=consts(Apis={"connect"}, GssFallback=True), invariants=["Gate"])),
+            dict(name="sensitivity: hashed known_hosts names cached per salt across lookups of one SSHClient", module="HostKeyGate",
+                 expect="Gate", cfg=cfg_text(constants=consts(Apis={"sshclient"}, MaxEntries=0, HashCachedPerSalt=True, **seq),
+                                             invariants=["Gate"])),
             dict(name="sensitivity: SSHClient skips the missing-host-key policy", module="HostKeyGate", expect="Gate",
                  cfg=cfg_text(constants=consts(Apis={"sshclient"}, MaxEntries=0, AskPolicy=False), invariants=["Gate"])),
             dict(name="decision table", module="HostKeyGate", kw={"workers": 1},
-                 cfg=cfg_text(spec="TableSpec", constants=consts(Apis={"connect", "sshclient"}), invariants=["EmitCase"]))]
+                 cfg=cfg_text(spec="TableSpec", constants=consts(Apis={"connect", "sshclient"}, **seq), invariants=["EmitCase"]))]
     if not c.quick:
         jobs.append(dict(name="without the guard the credential still never leaves in plaintext (expected-packet enforcement)",
                          module="HostKeyGate", cfg=cfg_text(constants=consts(Apis={"raw"}, GuardKex=False), invariants=["SecretSecure"])))
@@ -110,7 +116,7 @@ def run(c):
         # ---- the callers against a handshake whose host-key signature does not verify
         K = lambda t, i: {"t": t, "id": i}
         base = {"api": "sshclient", "expect": dict(cl.NOKEY), "sys": [], "usr": [], "policy": "Reject", "port": "default",
-                "server": [K("ed", 1)], "gss": "none"}
+                "server": [K("ed", 1)], "gss": "none", "prev": []}
         for upd in ({"api": "connect", "expect": K("ed", 1)}, {"api": "connect"}, {"usr": [{"name": "h", "hashed": False, "key": K("ed", 1)}]},
                     {"policy": "AutoAdd"}, {"policy": "CustomAccept", "port": "other"}):
             cfg = dict(base, **upd)
@@ -120,7 +126,7 @@ def run(c):
             c.case(key=("badsig", repr(cfg)))
         # ---- lifecycle: every auth method at every point
         raw = {"api": "raw", "expect": dict(cl.NOKEY), "sys": [], "usr": [], "policy": "Reject", "port": "default",
-               "server": [{"t": "ed", "id": 1}], "gss": "none"}
+               "server": [{"t": "ed", "id": 1}], "gss": "none", "prev": []}
         for cls in ("Transport", "ServiceRequestingTransport"):
             for point in cl.POINTS:
                 for m in cl.METHODS:
@@ -142,14 +148,26 @@ def run(c):
     res = box["first"]
     table = res["decision table"]
     cases = table.printed("CASE")
-    if len(cases) != table.distinct or len(cases) < 500:
+    if len(cases) != table.distinct or len(cases) < 500:   # (includes the two-connection sequences)
         raise Machinery("decision table: %d cases for %d configurations" % (len(cases), table.distinct))
 
     # ---- RP: the table on real connections (quick: seeded stratified sample; thorough: every case)
+    seqs = [cs for cs in cases if cs[1]["prev"]]
+    cases = [cs for cs in cases if not cs[1]["prev"]]
+    if len(seqs) < 48:
+        raise Machinery("only %d two-connection sequences in the table" % len(seqs))
     chosen = []
     if c.quick:
+        # fixed stratum: every single-connection case whose table has a hashed line for the name that is looked up
+        def hashed_hit(cfg):
+            want = {"default": "h", "other": "[h]:p"}.get(cfg["port"], "other")
+            return any(e["hashed"] and e["name"] == want for e in cfg["sys"] + cfg["usr"])
+        chosen = [cs for cs in cases if cs[1]["api"] == "sshclient" and hashed_hit(cs[1])]
+        fixed = set(repr(cs[1]) for cs in chosen)
         strata = {}
         for cs in cases:
+            if repr(cs[1]) in fixed:
+                continue
             cfg = cs[1]
             ents = cfg["sys"] + cfg["usr"]
             k = (cfg["api"], cs[3], cs[4], cfg["port"], label(cfg), bool(cfg["sys"]), len(cfg["server"]),
@@ -160,9 +178,26 @@ def run(c):
     else:
         chosen = list(cases)
     try:
+        # ---- fixed stratum: two connections through ONE SSHClient object (tables loaded once), all of them in both tiers
+        for n, cs in enumerate(seqs):
+            cfg = dict(cs[1])
+            cfg["server"] = list(cfg["server"])
+            cfg["prev"] = [{"port": p["port"], "server": list(p["server"])} for p in cfg["prev"]]
+            cred = "password" if n % 3 else "pkey"
+            earlier = []
+            obs = cl.run_gate(cfg, str(c.work / "kh"), rnd, cred, universe, earlier=earlier)
+            first = dict(cfg, prev=[], port=cfg["prev"][0]["port"], server=cfg["prev"][0]["server"])
+            batch.append({"kind": "gate", "cfg": first, "badsig": False, "obs": earlier[0]})
+            info.append(("sequence, first connection", cred))
+            batch.append({"kind": "gate", "cfg": cfg, "badsig": False, "obs": obs})
+            info.append(("sequence, second connection", cred))
+            c.case(key=("seq", repr(cs[1]), cred), n=2,
+                   sample={"cfg": cfg, "model": {"shown": cs[2], "decision": cs[3], "must_refuse": cs[4]}, "first": earlier[0],
+                           "second": obs} if n == 5 else None)
         for n, cs in enumerate(chosen):
             cfg = dict(cs[1])
             cfg["server"] = list(cfg["server"])
+            cfg["prev"] = []
             cred = "password" if n % 3 else "pkey"
             obs = cl.run_gate(cfg, str(c.work / "kh"), rnd, cred, universe)
             batch.append({"kind": "gate", "cfg": cfg, "badsig": False, "obs": obs})
@@ -195,9 +230,13 @@ def run(c):
               "system or user table)} x port form x policy (5, when nothing matches) x server key set, and Transport.connect "
               "expected key (none + 4) x server key set x GSS flags requested (none / gss_kex / gss_auth / both; the peer never "
               "does GSS) = %d cases; %s executed as real connections (password or public-key "
-              "credential); + %d seeded configurations with 3 key types and up to 4 entries; + %d auth_* calls (9 entry points x "
+              "credential); + %d two-connection sequences through one SSHClient object (a host with its right key in a plain / "
+              "hashed line, and - before or after it - another name that is unknown or known with another key, whose server presents "
+              "the first host's key; Reject / AutoAdd; system / user table), all executed in both tiers, as is in quick every "
+              "single-connection case with a hashed line for the looked-up name; + %d seeded configurations with 3 key types, up "
+              "to 4 entries and gss_* arguments on both callers; + %d auth_* calls (9 entry points x "
               "9 lifecycle points x Transport / ServiceRequestingTransport); distinct = (configuration, credential) and "
-              "(point, method, class)" % (len(cases), "a stratified seeded sample of %d" % len(chosen) if c.quick else "all",
+              "(point, method, class)" % (len(cases), "a stratified seeded sample of %d" % len(chosen) if c.quick else "all", len(seqs),
                                           sum(1 for x in info if x[0] == "random"), n_life))
     c.extra["exhaustive"] = not c.quick
     c.assumptions = ["the peer in real runs is an honest paramiko server holding the configured keys (arbitrary peers are explored in the model only)",
